@@ -21,7 +21,8 @@ it and passes without it) and then run against the property's quick check with t
 (`git -C /repo apply`, undone straight afterwards). %d changes are kept under `/verif/seeded/<id>/` (patch.diff, demo.py,
 the agent's notes, meta.json); %d are detected by the quick tier of the property's check, %d are no longer defects on the
 current tree (a later fix: commit made the changed code correct again; see their rows). `tools/regress_seeded.py` re-runs all of
-them against the current checks. %d of them were **missed when first run** and led to the strengthening recorded below; the quick
+them against the current checks. %d of them are **not detected** (marked **missed** in the table, with the reason in the list
+below). %d of them were **missed when first run** and led to the strengthening recorded below; the quick
 tier was re-run on the unchanged tree after each strengthening (still clean).
 
 %s
@@ -31,7 +32,7 @@ generators did not produce. Each was closed by widening what is generated, not b
 
 %s
 %s
-""" % (B, n, len(det), len(neutral), len(missed_first), table, hist, E)
+""" % (B, n, len(det), len(neutral), n - len(det) - len(neutral), len(missed_first), table, hist, E)
 if B in s:
     s = s[:s.index(B)] + body + s[s.index(E) + len(E):]
 else:
